@@ -14,6 +14,9 @@ def session(ctx, sid):
     for _ in range(rng.randint(10, 45)):
         r = rng.random()
         t = rng.randrange(n)
+        if rng.random() < 0.06:
+            s.repeat(t)
+            continue
         if r < 0.30:
             s.cmd(t, "CMD POWERON")
         elif r < 0.50:
